@@ -58,6 +58,8 @@ def run(chk):
             return w
         if w.get("engine") in ("LANCZOS", "ARNOLDI", "SVD-BOUNDED"):
             return outputs_replay(w)
+        if w.get("engine") == "ANN3":
+            return ann3_replay(w)
         return rp(ob)
     return replayer
 
@@ -258,7 +260,98 @@ def product_patterns(chk):
                     return O.Product(O.ScalarMul(s, (X.shape[0], X.shape[0]), sdt), X)
                 cases.append(Case(f"scalar*X/dtype={d};scalar={np.dtype(cdt).name};ann={ann}", "get_annotations(Product) with a ScalarMul factor", build,
                                   call_s, ens, witness=dict(engine="ANN", pattern="scalar", dtype=d, scalar=np.dtype(cdt).name, ann=list(ann))))
+        # Gram pattern inside a longer product (X^T X Y, Y X^T X, X X^T Y) and with a scalar factor in any position: the pattern only justifies PSD for the
+        # two-factor product; whatever the rule reports for the longer one must still be true of M(W) M(X) M(Y)
+        for wrap, wname in ((O.Transpose, "T"), (O.Adjoint, "H")):
+            for pat in (("W", "X", "Y"), ("Y", "W", "X"), ("X", "W", "Y"), ("s", "W", "X"), ("W", "s", "X"), ("W", "X", "s")):
+                for yann in ((), ("PSD",)):
+                    if "Y" not in pat and yann:
+                        continue
+
+                    def build3(dt=dt, pat=pat, yann=yann):
+                        r, c = sym_dim("r"), sym_dim("c")
+                        X = AbstractOp("X", r, c, dt, ())
+                        inner = c if pat.index("W") < pat.index("X") else r      # W X is c x c, X W is r x r
+                        Y = AbstractOp("Y", inner, inner, dt, tuple(getattr(cola, a) for a in yann))
+                        return (X, Y, SScal.fresh("s", np.float64))
+
+                    def call3(X, Y, s, wrap=wrap, pat=pat, dt=dt):
+                        W = wrap(X)
+                        n = W.shape[0] if pat.index("W") < pat.index("X") else X.shape[0]
+                        env = dict(W=W, X=X, Y=Y)
+                        fs = []
+                        for i, p in enumerate(pat):
+                            if p == "s":
+                                nn = n if i == 0 else fs[-1].shape[1]
+                                fs.append(O.ScalarMul(s, (nn, nn), dt))
+                            else:
+                                fs.append(env[p])
+                        return O.Product(*fs)
+                    cases.append(Case(f"Product({','.join(pat)})[X.{wname} Gram pattern in a longer product]/dtype={d};yann={yann}", "get_annotations(Product) on three-factor products containing X^T X", build3, call3, ens,
+                                      witness=dict(engine="ANN3", pattern=list(pat), wrap=wname, dtype=d, yann=list(yann))))
     run_cases(chk, "C05", cases)
+
+
+def ann3_replay(w):
+    """three-factor products containing a Gram pattern, built from concrete non-Dense operands (so that .T / .H stay lazy wrappers): every reported annotation against the dense matrix"""
+    import json
+    import subprocess
+    code = r'''
+import json, sys, numpy as np, logging
+logging.disable(logging.CRITICAL)
+import cola
+from cola.ops import Dense, Diagonal, ScalarMul, Transpose, Adjoint, Product
+w = json.loads(sys.argv[1])
+rng = np.random.default_rng(5)
+cplx = w["dtype"].startswith("complex")
+def rnd(*s):
+    a = rng.standard_normal(s)
+    return a + 1j * rng.standard_normal(s) if cplx else a
+res = dict(replayed=True, failing_input_found=False)
+for trial in range(6):
+    r, c = (4, 4) if trial % 2 == 0 else (5, 3)
+    x = rnd(r, c)
+    X = Dense(x) + Dense(np.zeros_like(x))            # a Sum: its transpose / adjoint stays a lazy wrapper
+    W = (Transpose if w["wrap"] == "T" else Adjoint)(X)
+    wd = x.T if w["wrap"] == "T" else x.conj().T
+    pat = w["pattern"]
+    n = c if pat.index("W") < pat.index("X") else r
+    y = rnd(n, n)
+    if "PSD" in w.get("yann", []):
+        y = y @ y.conj().T + n * np.eye(n)
+    Y = Dense(y) + Dense(np.zeros_like(y))
+    for a in w.get("yann", []):
+        Y = getattr(cola, a)(Y)
+    s = -1.7
+    env = dict(W=(W, wd), X=(X, x), Y=(Y, y))
+    fs, ds = [], []
+    for i, p in enumerate(pat):
+        if p == "s":
+            nn = n if i == 0 else ds[-1].shape[1]
+            fs.append(ScalarMul(s, (nn, nn), x.dtype)); ds.append(s * np.eye(nn))
+        else:
+            fs.append(env[p][0]); ds.append(env[p][1])
+    P = Product(*fs)
+    D = ds[0]
+    for dd in ds[1:]:
+        D = D @ dd
+    for a in sorted(x.__name__ for x in P.annotations):
+        herm = np.linalg.norm(D - D.conj().T) <= 1e-8 * max(1, np.linalg.norm(D))
+        ok = True
+        if a == "SelfAdjoint": ok = herm
+        elif a == "PSD": ok = herm and np.linalg.eigvalsh((D + D.conj().T) / 2).min() >= -1e-8
+        elif a in ("Unitary", "Stiefel"): ok = np.linalg.norm(D.conj().T @ D - np.eye(D.shape[1])) <= 1e-8
+        if not ok:
+            res = dict(replayed=True, failing_input_found=True, input=f"Product({', '.join(pat)}) with W = X.{w['wrap']}, X a {r}x{c} {'complex' if cplx else 'real'} Sum of Dense operators, Y {n}x{n} {w.get('yann')}, s = {s}",
+                       observed=f"reports {a}; |D - D^H| = {np.linalg.norm(D - D.conj().T):.3g}", expected=f"{a} reported only if true of the dense product")
+            print(json.dumps(res)); sys.exit(0)
+print(json.dumps(res))
+'''
+    p = subprocess.run(["/venv/bin/python", "-W", "ignore", "-c", code, json.dumps(w)], cwd="/repo", capture_output=True, text=True, timeout=300)
+    try:
+        return json.loads(p.stdout.strip().splitlines()[-1])
+    except Exception:
+        return dict(replayed=False, failing_input_found=False, error=(p.stdout + p.stderr)[-600:])
 
 
 def declare_cases(chk):
